@@ -396,6 +396,9 @@ func (g *histGen) unit() {
 			}},
 			choice{3, func() {
 				m := pgwire.FMsg{K: "E", S1: g.name(nil, "p")}
+				if r.Chance(1, 4) {
+					m.Limit = uint32(r.PickInt(1, 2, 100, 0x7fffffff)) // row limits are read and ignored
+				}
 				if r.Chance(1, 5) {
 					m.Tail = []byte{1, 2, 3} // junk after the row limit inside the declared length
 				}
